@@ -36,6 +36,10 @@ pub enum Op {
         ca: String, parent: String, asn: String, v4: String, v6: String,
         name_in_parent: String, name_for_child: String,
     },
+    /// Parent-side half of adding a parent: one API request.
+    AddChildOnly { ca: String, parent: String, asn: String, v4: String, v6: String },
+    /// Child-side half (the child is already registered at the parent).
+    AddParentOnly { ca: String, parent: String },
     RemoveParent { ca: String, parent: String },
     DeleteCa { ca: String },
     ChildUpdate { parent: String, child: String, asn: String, v4: String, v6: String },
@@ -66,6 +70,8 @@ impl Op {
             Op::AddCa { .. } => "add_ca",
             Op::AddParent { .. } => "add_parent",
             Op::AddCaMapped { .. } => "add_ca_mapped",
+            Op::AddChildOnly { .. } => "add_child_only",
+            Op::AddParentOnly { .. } => "add_parent_only",
             Op::RemoveParent { .. } => "remove_parent",
             Op::DeleteCa { .. } => "delete_ca",
             Op::ChildUpdate { .. } => "child_update",
@@ -190,6 +196,16 @@ fn apply_inner(w: &mut World, op: &Op) -> Result<(), String> {
                 &actor, &k
             ).map_err(e)?;
             w.add_parent_only(ca, parent, presp).map_err(e)
+        }
+        Op::AddChildOnly { ca, parent, asn, v4, v6 } => {
+            w.add_child_only(ca, parent, res(asn, v4, v6)?).map(|_| ())
+                .map_err(e)
+        }
+        Op::AddParentOnly { ca, parent } => {
+            let resp = k.ca_manager().ca_parent_response(
+                &h(parent), h(ca).convert(), k.service_uri()
+            ).map_err(e)?;
+            w.add_parent_only(ca, parent, resp).map_err(e)
         }
         Op::RemoveParent { ca, parent } => {
             k.ca_manager().ca_parent_remove(
